@@ -67,8 +67,7 @@ def slot_rules(ctx, ev):
     outs = ev.outcomes(fi)
     rets = [o for o in outs if o.kind == "return"]
     raises = [o for o in outs if o.kind == "raise"]
-    if len(rets) != 1:
-        raise AnalysisError(f"{fq}: expected one normal outcome")
+    rets = generic.sole_outcome(ctx, rets, f"{fq}: expected one normal outcome")
     o = rets[0]
     pad_calls = [e.args[0] for e in all_effects(o.effects) if isinstance(e, App) and e.op == "eff:call"
                  and isinstance(e.args[0], App) and e.args[0].op == "call" and isinstance(e.args[0].args[0], Ref)
@@ -439,8 +438,7 @@ def close_merge_rules(ctx, ev):
     fi = repo.func(MOD, "CachePartition.close_and_save_cache")
     fq = ctx.fq(fi)
     outs = [o for o in ev.outcomes(fi) if o.kind == "return"]
-    if len(outs) != 1:
-        raise AnalysisError(f"{fq}: expected one outcome")
+    outs = generic.sole_outcome(ctx, outs, f"{fq}: expected one outcome")
     o = outs[0]
     writes = [e for e in all_effects(o.effects) if isinstance(e, App) and e.op == "eff:write"]
     final = cat_parts(_plus(writes[0].args[1])) if len(writes) == 1 else None
@@ -454,8 +452,7 @@ def close_merge_rules(ctx, ev):
     mf = repo.func(MOD, "CachePartition.merge_single_cache_file")
     mq = ctx.fq(mf)
     mo = [o for o in ev.outcomes(mf) if o.kind == "return"]
-    if len(mo) != 1:
-        raise AnalysisError(f"{mq}: expected one outcome")
+    mo = generic.sole_outcome(ctx, mo, f"{mq}: expected one outcome")
     loops = [e for e in mo[0].effects if isinstance(e, App) and e.op == "eff:loop"]
     if len(loops) != 1:
         raise AnalysisError(f"{mq}: loop not recognised")
@@ -487,8 +484,7 @@ def close_merge_rules(ctx, ev):
     main = repo.func(MOD, "main")
     ev3 = Evaluator(repo, inline_depth=1)
     mo = [o for o in ev3.outcomes(main) if o.kind == "return"]
-    if len(mo) != 1:
-        raise AnalysisError("cmd_cache_create.main: expected one normal outcome")
+    mo = generic.sole_outcome(ctx, mo, "cmd_cache_create.main: expected one normal outcome")
     kw = P("kwargs")
     news = [s for e in all_effects(mo[0].effects) for s in subterms(e) if isinstance(s, App) and s.op == "new"
             and isinstance(s.args[0], Ref) and s.args[0].obj.name == "CachePartition"]
